@@ -227,7 +227,27 @@ def f_clip_on_non_numeric(prog, idxs, ctx):
     return False
 
 
+def f_group_by_constant_column(prog, idxs, ctx):
+    """group_by over a column that a mutate defined as a constant expression, followed by summarize."""
+    steps = prog["steps"]
+    const_names = set()
+    for i in idxs:
+        st = steps[i]
+        if st["verb"] == "mutate":
+            for n, e in st["kw"]:
+                if not has_col(e):
+                    const_names.add(n)
+                else:
+                    const_names.discard(n)
+        if st["verb"] == "group_by":
+            for e in st["cols"]:
+                if e.get("n") in const_names:
+                    return True
+    return False
+
+
 FEATURES = {
+    "group_by_constant_column": f_group_by_constant_column,
     "clip_on_non_numeric": f_clip_on_non_numeric,
     "union_mixed_types": f_union_mixed_types,
     "agg_or_window_over_constant": f_agg_or_window_over_constant,
@@ -265,7 +285,11 @@ def match(entry, prop, finding, prog, ctx=None):
     if feat is None:
         return False
     where = finding.step
-    idxs = ancestors(prog, where) if where is not None else list(range(len(prog["steps"])))
+    known_handles = {st["out"] for st in prog["steps"]} | {t["handle"] for t in prog["tables"]}
+    if where is None or (isinstance(where, str) and where not in known_handles) or (isinstance(where, int) and where >= len(prog["steps"])):
+        idxs = list(range(len(prog["steps"])))  # e.g. a shrunk witness: all of it leads to the finding
+    else:
+        idxs = ancestors(prog, where)
     try:
         return bool(feat(prog, idxs, ctx))
     except Exception:
